@@ -34,7 +34,7 @@ class PyRaise(Exception):
         "LookupError": "Exception", "AttributeError": "Exception", "AssertionError": "Exception",
         "RuntimeError": "Exception", "NotImplementedError": "RuntimeError", "ValidationError": "ValueError",
         "AxisError": "ValueError", "ZeroDivisionError": "ArithmeticError", "ArithmeticError": "Exception",
-        "StopIteration": "Exception", "Exception": "BaseException",
+        "StopIteration": "Exception", "Exception": "BaseException", "FrozenInstanceError": "AttributeError",
     }
 
     def __init__(self, exc_name, node=None, msg="", where=""):
@@ -96,6 +96,48 @@ class Closure:
 
     def __call__(self, *a, **k):      # so that host functions (list.sort(key=...)) can call analysed lambdas
         return self.interp.call_closure(self, list(a), k)
+
+
+def einsum_sublists(spec, ops):
+    """np.einsum(op0, sublist0, op1, sublist1, ..., [sublist_out]) -> the equivalent (subscripts string, operands)"""
+    if isinstance(spec, str):
+        return (spec,) + tuple(ops)
+    seq = [spec] + list(ops)
+
+    def letters(sub):
+        out = ""
+        for x in sub:
+            if x is Ellipsis:
+                out += "..."
+            elif isinstance(x, int) and not isinstance(x, bool) and 0 <= int(x) < 52:
+                out += "abcdefghijklmnopqrstuvwxyzABCDEFGHIJKLMNOPQRSTUVWXYZ"[int(x)]
+            else:
+                raise AnalysisAbort("np.einsum sublist entry that is neither a small integer nor Ellipsis")
+        return out
+    arrays, subs, i = [], [], 0
+    while i + 1 < len(seq) or (i < len(seq) and False):
+        arrays.append(seq[i])
+        subs.append(letters(seq[i + 1]))
+        i += 2
+    spec_s = ",".join(subs)
+    if i < len(seq):
+        spec_s += "->" + letters(seq[i])
+    return (spec_s,) + tuple(arrays)
+
+
+class NTuple(tuple):
+    """instance of a typing.NamedTuple class of the analysed program: a real tuple (iteration, indexing, unpacking, ==, hash) that
+    also answers attribute access through its class (`cls`: ClassInfo)"""
+    def __new__(cls, info, values):
+        t = super().__new__(cls, values)
+        t.cls = info
+        return t
+
+
+class CtxMgr:
+    """the not-yet-entered result of calling a @contextmanager function"""
+    def __init__(self, fn, args, kwargs, closure_env):
+        self.fn, self.args, self.kwargs, self.closure_env = fn, args, kwargs, closure_env
 
 
 class BT:
@@ -231,6 +273,34 @@ class PyModel:
     attribute access and calls go straight to the python object"""
 
 
+class StringBuf(PyModel):
+    """io.StringIO: an in-memory text buffer (write / getvalue / use as a context manager)"""
+    def __init__(self, initial=""):
+        self.parts = [str(initial)] if initial else []
+        self.closed = False
+
+    def write(self, text):
+        if self.closed:
+            raise PyRaise("ValueError", None, "I/O operation on closed file")
+        self.parts.append(str(text))
+        return len(str(text))
+
+    def getvalue(self):
+        if self.closed:
+            raise PyRaise("ValueError", None, "I/O operation on closed file")
+        return "".join(self.parts)
+
+    def close(self):
+        self.closed = True
+
+    def __enter__(self):
+        return self
+
+    def __exit__(self, *a):
+        self.closed = True
+        return False
+
+
 class LogRecord:
     def __init__(self, level, msg):
         self.level, self.msg = level, msg
@@ -265,12 +335,102 @@ class Interp:
             if args:
                 raise PyRaise("TypeError", node, f"{cls.name}() takes keyword arguments only")
             return self._construct_model(cls, dict(kwargs), node)
+        kind = self.record_kind(cls)
+        if kind:
+            return self._construct_record(cls, kind, list(args), dict(kwargs), node)
         o = Obj(cls)
         r = self.p.find_attr(cls, "__init__")
         if r and r[0] == "method":
             self.call_fn(r[1], [o] + list(args), kwargs)
         elif args or kwargs:
             raise PyRaise("TypeError", node, f"{cls.name}() takes no arguments")
+        return o
+
+    def record_kind(self, cls):
+        """'namedtuple' | 'dataclass' | None for a plain class; a base class or class decorator from a library that is not modelled
+        stops the analysis (its constructor protocol is unknown)"""
+        c = self.__dict__.setdefault("_record_kinds", {})
+        if cls not in c:
+            kinds = set()
+            for k in self.p.mro(cls):
+                for e in k.ext_bases:
+                    if e.split("[")[0] not in k.KNOWN_EXT_BASES and e.split("[")[0].split(".")[-1] not in ("NamedTuple", "ABC", "Generic", "Protocol", "BaseModel", "object"):
+                        raise AnalysisAbort(f"class {k.name} derives from {e}, which is not modelled")
+                bad = [d for d in k.deco_names if d not in ("dataclass", "final", "runtime_checkable")]
+                if bad:
+                    raise AnalysisAbort(f"class decorator(s) {bad} on {k.name} are not modelled")
+                if k.own_record_kind():
+                    kinds.add(k.own_record_kind())
+            if len(kinds) > 1:
+                raise AnalysisAbort(f"class {cls.name} mixes record kinds {sorted(kinds)}")
+            c[cls] = next(iter(kinds), None)
+        return c[cls]
+
+    def record_fields(self, cls):
+        """[(name, annotation, default expr | None, owner)] in definition order, base classes first"""
+        out = {}
+        for k in reversed(self.p.mro(cls)):
+            if not k.own_record_kind() and self.record_kind(cls) == "dataclass":
+                continue
+            for name, (ann, dflt) in k.fields.items():
+                if ann is not None and "ClassVar" in ast.unparse(ann):
+                    continue
+                out[name] = (name, ann, dflt, k)
+        return list(out.values())
+
+    def _construct_record(self, cls, kind, args, kwargs, node):
+        fields = self.record_fields(cls)
+        names = [f[0] for f in fields]
+        opts = cls.dataclass_options() if kind == "dataclass" else {}
+        for o_ in opts:
+            if o_ not in ("frozen", "eq", "slots", "repr", "order", "kw_only", "unsafe_hash", "init", "match_args"):
+                raise AnalysisAbort(f"dataclass option {o_}")
+        if opts.get("kw_only") and args:
+            raise PyRaise("TypeError", node, f"{cls.name}.__init__() takes 1 positional argument but {len(args) + 1} were given")
+        if kind == "dataclass" and self.p.find_attr(cls, "__init__") and self.p.find_attr(cls, "__init__")[1].cls is not None \
+                and self.p.find_attr(cls, "__init__")[1].cls.own_record_kind() is None:
+            raise AnalysisAbort("dataclass with a hand-written __init__ in a base class")
+        if len(args) > len(names):
+            raise PyRaise("TypeError", node, f"{cls.name}() takes {len(names)} positional arguments but {len(args)} were given")
+        vals = {}
+        for n_, a in zip(names, args):
+            vals[n_] = a
+        for k, v in kwargs.items():
+            if k not in names:
+                raise PyRaise("TypeError", node, f"{cls.name}() got an unexpected keyword argument '{k}'")
+            if k in vals:
+                raise PyRaise("TypeError", node, f"{cls.name}() got multiple values for argument '{k}'")
+            vals[k] = v
+        for name, ann, dflt, owner in fields:
+            if name in vals:
+                continue
+            if dflt is None:
+                raise PyRaise("TypeError", node, f"{cls.name}() missing required argument: '{name}'")
+            fr0 = Frame({}, self.p.modules[owner.module], owner, None)
+            if kind == "dataclass" and isinstance(dflt, ast.Call) and ast.unparse(dflt.func).split(".")[-1] == "field":
+                kw = {k.arg: k.value for k in dflt.keywords}
+                if set(kw) - {"default", "default_factory", "repr", "compare", "hash", "init", "kw_only"}:
+                    raise AnalysisAbort(f"dataclasses.field options {sorted(kw)}")
+                if "default_factory" in kw:
+                    vals[name] = self.call(self.eval(kw["default_factory"], fr0), [], {})
+                elif "default" in kw:
+                    vals[name] = self.eval(kw["default"], fr0)
+                else:
+                    raise PyRaise("TypeError", node, f"{cls.name}() missing required argument: '{name}'")
+            else:
+                vals[name] = self.const_value(dflt, fr0)      # evaluated once, at class creation
+        if kind == "namedtuple":
+            return NTuple(cls, [vals[n_] for n_ in names])
+        o = Obj(cls)
+        for n_ in names:
+            o.f[n_] = vals[n_]
+        r = self.p.find_attr(cls, "__post_init__")
+        if r and r[0] == "method":
+            o.f["__constructing__"] = True
+            try:
+                self.call_fn(r[1], [o], {})
+            finally:
+                o.f.pop("__constructing__", None)
         return o
 
     ALIASES = {"dim_letter": "letter"}
@@ -472,6 +632,20 @@ class Interp:
         if fn.decos:
             if fn.unknown_decorators:
                 raise AnalysisAbort(f"decorator(s) {fn.unknown_decorators} on {fn.qual} are not modelled")
+            if fn.is_contextmanager:
+                return CtxMgr(fn, list(args), dict(kwargs), closure_env)
+            if fn.dispatch_kind and not getattr(self, "_in_dispatch", None) == id(fn):
+                impl = self.dispatch_target(fn, args)
+                if impl is not fn:
+                    return self.call_fn(impl, args, kwargs, closure_env)
+                prev = getattr(self, "_in_dispatch", None)
+                self._in_dispatch = id(fn)
+                try:
+                    return self.call_fn(fn, args, kwargs, closure_env)
+                finally:
+                    self._in_dispatch = prev
+            if any(d.split("(")[0].split(".")[-1] == "register" for d in fn.decos) and not fn.dispatch_kind and False:
+                pass
             if fn.is_memoised and not getattr(self, "_in_memo", None) == id(fn):
                 # functools.lru_cache / cache: one evaluation per distinct argument tuple; the SAME result object is handed out again
                 memo = self.__dict__.setdefault("_lru", {})
@@ -506,6 +680,69 @@ class Interp:
             self.stack.pop()
             self.depth -= 1
 
+    def memoised(self, f):
+        """functools.cache(f) used as a call: one evaluation per distinct argument tuple, the same result object afterwards"""
+        memo = {}
+
+        def wrapper(*a, **k):
+            key = (tuple(self._memo_key(x) for x in a), tuple(sorted((kk, self._memo_key(v)) for kk, v in k.items())))
+            if key not in memo:
+                memo[key] = (self.call(f, list(a), dict(k)), list(a))
+            return memo[key][0]
+        return wrapper
+
+    def dispatch_target(self, fn: FuncInfo, args):
+        """functools.singledispatch / singledispatchmethod: the implementation registered for the most specific class of the first
+        argument (after self for a method); registrations are the functions of the same scope decorated `@<name>.register(...)`"""
+        scope = fn.cls.methods.values() if fn.cls is not None else self.p.modules[fn.module].funcs.values()
+        regs = []
+        all_funcs = []
+        if fn.cls is not None:
+            # methods with the same name shadow each other in ClassInfo.methods: walk the class body instead
+            for st in fn.cls.node.body:
+                if isinstance(st, ast.FunctionDef):
+                    all_funcs.append(st)
+        else:
+            for st in self.p.modules[fn.module].tree.body:
+                if isinstance(st, ast.FunctionDef):
+                    all_funcs.append(st)
+        mi = self.p.modules[fn.module]
+        for node in all_funcs:
+            for d in node.decorator_list:
+                target = d.func if isinstance(d, ast.Call) else d
+                if isinstance(target, ast.Attribute) and target.attr == "register" and isinstance(target.value, ast.Name) and target.value.id == fn.name:
+                    if isinstance(d, ast.Call) and d.args:
+                        types = [self.eval(a, Frame({}, mi, fn.cls, None)) for a in d.args]
+                    else:
+                        first = node.args.args[1 if fn.cls is not None else 0]
+                        if first.annotation is None:
+                            raise AnalysisAbort(f"{fn.name}.register without a type")
+                        types = [self.eval(first.annotation, Frame({}, mi, fn.cls, None))]
+                    if len(node.decorator_list) != 1:
+                        raise AnalysisAbort(f"stacked decorators on a registration of {fn.name}")
+                    fi = FuncInfo(node, fn.module, fn.cls)
+                    fi.decos = []
+                    for t in types:
+                        for tt in (t if isinstance(t, tuple) else (t,)):
+                            regs.append((tt, fi))
+        subject = args[1] if fn.cls is not None else args[0]
+        hits = [(t, f) for t, f in regs if self.isinstance_(subject, t)]
+        if not hits:
+            return fn
+        if len(hits) > 1:
+            # most specific: a repo class that derives from the other candidates, bool before int; otherwise not decided here
+            def more_specific(a, b):
+                if isinstance(a, ClassInfo) and isinstance(b, ClassInfo):
+                    return b in self.p.mro(a) and a is not b
+                if isinstance(a, BT) and isinstance(b, BT):
+                    return (a.name, b.name) in (("bool", "int"),)
+                return isinstance(a, (ClassInfo, BT)) and b in (ITERABLE, NUMBER, CALLABLE)
+            best = [h for h in hits if all(h is o or h[1] is o[1] or more_specific(h[0], o[0]) for o in hits)]
+            if len({id(h[1]) for h in best}) != 1:
+                raise AnalysisAbort(f"singledispatch on {fn.name}: several registered types match {self.tname(subject)}")
+            hits = best
+        return hits[0][1]
+
     def is_generator(self, node):
         c = self.__dict__.setdefault("_gen_cache", {})
         if id(node) not in c:
@@ -522,6 +759,9 @@ class Interp:
         return c[id(node)]
 
     def e_Yield(self, n, fr):
+        if "__cm_body__" in fr.env:
+            fr.env["__cm_body__"](self.eval(n.value, fr) if n.value is not None else None)
+            return None
         if "__yields__" not in fr.env:
             raise AnalysisAbort("yield outside a modelled generator")
         fr.env["__yields__"].append(self.eval(n.value, fr) if n.value is not None else None)
@@ -587,6 +827,34 @@ class Interp:
         return self.call_fn(r[1], [obj] + list(args), kwargs)
 
     def get_attr(self, v, name, node=None):
+        if isinstance(v, NTuple):
+            names = [f[0] for f in self.record_fields(v.cls)]
+            if name in names:
+                return v[names.index(name)]
+            if name == "_fields":
+                return tuple(names)
+            if name == "_asdict":
+                return lambda: dict(zip(names, v))
+            if name == "_replace":
+                def _replace(**kw):
+                    bad = [k for k in kw if k not in names]
+                    if bad:
+                        raise PyRaise("ValueError", node, f"Got unexpected field names: {bad!r}")
+                    return NTuple(v.cls, [kw.get(n_, x) for n_, x in zip(names, v)])
+                return _replace
+            if name in ("count", "index"):
+                return getattr(tuple(v), name)
+            if name == "__class__":
+                return v.cls
+            r = self.p.find_attr(v.cls, name)
+            if r and r[0] == "property":
+                return self.call_fn(r[1], [v], {})
+            if r and r[0] == "method":
+                f = r[1]
+                return f if f.is_staticmethod else ClsMethod(v.cls, f) if f.is_classmethod else Bound(v, f)
+            if r:
+                return self.const_value(r[1], Frame({}, self.p.modules[r[2].module], r[2], None))
+            raise PyRaise("AttributeError", node, f"'{v.cls.name}' object has no attribute '{name}'")
         if isinstance(v, Obj):
             if name in v.f:
                 return v.f[name]
@@ -611,7 +879,7 @@ class Interp:
                 return v.f
             if v.cls.is_pydantic:
                 if name == "model_copy":
-                    return lambda update=None, deep=False: self.model_copy(v, update)
+                    return lambda update=None, deep=False: self.model_copy(self.deepcopy(v) if self.truth(deep) else v, update)
                 if name == "model_fields":
                     return {k: None for k in self.p.model_fields(v.cls) if not k.startswith("_")}
                 if name == "model_dump":
@@ -631,6 +899,11 @@ class Interp:
                     return self.const_value(r[1], Frame({}, self.p.modules[r[2].module], r[2], None))
             if name == "__name__":
                 return v.name
+            if name in ("_fields", "_make", "__match_args__") and not v.is_pydantic and self.record_kind(v):
+                names = tuple(f[0] for f in self.record_fields(v))
+                if name == "_make":
+                    return lambda it: self.construct(v, list(self.iterate(it)), {})
+                return names
             if name == "model_fields" and v.is_pydantic:
                 return {k: None for k in self.p.model_fields(v) if not k.startswith("_")}
             raise PyRaise("AttributeError", node, f"type object '{v.name}' has no attribute '{name}'")
@@ -740,6 +1013,8 @@ class Interp:
             return lambda keys, value=None: {k: value for k in self.iterate(keys)}
         if isinstance(v, BT) and v.name == "str" and name == "join":
             return lambda sep, it: sep.join(str(x) for x in self.iterate(it))
+        if isinstance(v, collections.deque) and name in ("pop", "popleft", "append", "appendleft", "extend", "clear", "maxlen", "count", "index"):
+            return getattr(v, name)
         if isinstance(v, Opaque):
             raise AnalysisAbort(f"attribute {name} of {v!r} is not modelled")
         raise AnalysisAbort(f"attribute {name} on {type(v).__name__} is not modelled (line {getattr(node, 'lineno', '?')})")
@@ -892,6 +1167,16 @@ class Interp:
             if name == "methodcaller":
                 return lambda mname, *a, **k: (lambda o: self.call(self.get_attr(o, mname), list(a), k))
             raise AnalysisAbort(f"operator.{name} is not modelled")
+        if m.name == "itertools" and name == "chain":
+            I3 = self
+
+            class _Chain(PyModel):
+                def __call__(self_, *its):
+                    return iter([x for it in its for x in I3.iterate(it)])
+
+                def from_iterable(self_, its):
+                    return iter([x for it in I3.iterate(its) for x in I3.iterate(it)])
+            return _Chain()
         if m.name == "functools" and name == "reduce":
             def reduce_(f, it, *init):
                 vals = self.iterate(it)
@@ -929,11 +1214,13 @@ class Interp:
                         a2.append(x)
                 k = {kk: ((lambda *aa, _x=v, **kw2: I2.call(_x, list(aa), kw2)) if isinstance(v, (Bound, ClsMethod, Closure, FuncInfo, BT, ClassInfo)) else v)
                      for kk, v in k.items()}
+                if m.name == "itertools" and name == "accumulate" and len(a2) == 1 and "func" not in k:
+                    k["func"] = lambda x, y: I2.binop(ast.Add(), x, y, node)        # the default operator.add, on analysed values
                 r = host(*a2, **k)
                 if m.name == "itertools" and name == "groupby":
                     return [(key, list(grp)) for key, grp in r]
                 if m.name == "itertools":
-                    return list(r)
+                    return iter(list(r))         # an iterator: consumed once
                 return r
             return wrapped
         if m.name in ("re", "unicodedata"):        # pure standard-library text functions: evaluated as they are
@@ -952,7 +1239,7 @@ class Interp:
         if m.name == "itertools" and name == "product":
             import itertools as _it
             return lambda *its, repeat=1: list(_it.product(*[self.iterate(i) for i in its], repeat=repeat))
-        if m.name.split(".")[0] in ("scipy", "pandas", "os", "pickle", "matplotlib", "plotly", "warnings", "typing", "collections"):
+        if m.name.split(".")[0] in ("scipy", "pandas", "os", "pickle", "matplotlib", "plotly", "warnings", "typing", "collections", "io", "types", "contextlib", "dataclasses"):
             return ExtModule(full)
         if m.name == "copy":
             if name == "copy":
@@ -1022,7 +1309,7 @@ class Interp:
         if name in ("int16", "int32", "int64", "intp", "float32", "float_"):
             return Marker("np." + name)
         if name == "einsum":
-            return lambda spec, *ops, **kw: NP.einsum(spec, *ops)
+            return lambda spec, *ops, **kw: NP.einsum(*einsum_sublists(spec, ops))
         if name == "ix_":
             return lambda *lists: tuple(Mesh(k, len(lists), list(l)) for k, l in enumerate(lists))
         if name in ("zeros", "empty"):
@@ -1174,6 +1461,23 @@ class Interp:
             return lambda dt: Opaque("finfo")
         if name == "squeeze":
             return lambda a, axis=None: I.arr_attr(a, "squeeze", None)(axis)
+        cmp_ufuncs = {"greater": ast.Gt, "greater_equal": ast.GtE, "less": ast.Lt, "less_equal": ast.LtE, "equal": ast.Eq, "not_equal": ast.NotEq}
+        if name in cmp_ufuncs:
+            def cmp_ufunc(a, b, _op=cmp_ufuncs[name]):
+                if isinstance(a, (list, tuple)) and not isinstance(b, (list, tuple, AArr)):
+                    return [I.compare(_op(), x, b, None) for x in a]        # e.g. over a shape tuple
+                if isinstance(b, (list, tuple)) and not isinstance(a, (list, tuple, AArr)):
+                    return [I.compare(_op(), a, x, None) for x in b]
+                if isinstance(a, (list, tuple)) or isinstance(b, (list, tuple)):
+                    raise AnalysisAbort(f"np.{name} of two sequences")
+                return I.compare(_op(), a, b, None)
+            return cmp_ufunc
+        if name == "count_nonzero":
+            def count_nonzero(a, **k):
+                if k or not isinstance(a, (list, tuple)):
+                    raise AnalysisAbort("np.count_nonzero beyond a plain sequence")
+                return sum(1 for x in a if I.truth(x))
+            return count_nonzero
         raise AnalysisAbort(f"np.{name} is not modelled")
 
     def same_dtype(self, a: AArr, dtype):
@@ -1204,7 +1508,15 @@ class Interp:
         if name == "isinstance":
             return self.isinstance_
         if name == "issubclass":
-            return lambda c, t: isinstance(c, ClassInfo) and any(isinstance(x, ClassInfo) and x in I.p.mro(c) for x in (t if isinstance(t, tuple) else (t,)))
+            def issubclass_(c, t):
+                ts = t if isinstance(t, tuple) else (t,)
+                if isinstance(c, ExcClass):
+                    probe = PyRaise(c.name)
+                    return any(isinstance(x, ExcClass) and probe.isa(x.name) for x in ts)
+                if not isinstance(c, (ClassInfo, BT, ExcClass)):
+                    raise AnalysisAbort(f"issubclass of {I.tname(c)}")
+                return isinstance(c, ClassInfo) and any(isinstance(x, ClassInfo) and x in I.p.mro(c) for x in ts)
+            return issubclass_
         if name == "len":
             def length(v):
                 if isinstance(v, Obj):
@@ -1373,7 +1685,13 @@ class Interp:
         if name == "callable":
             return lambda v: isinstance(v, (Bound, ClsMethod, Closure, FuncInfo, ClassInfo)) or callable(v)
         if name == "print":
-            return lambda *a, **k: None
+            def print_(*a, sep=" ", end="\n", file=None, flush=False):
+                if file is None:
+                    return None         # standard output is not part of any property
+                if not isinstance(file, StringBuf):
+                    raise AnalysisAbort("print(file=...) into something other than an io.StringIO")
+                file.write((" " if sep is None else sep).join(I.to_str(x) for x in a) + ("\n" if end is None else end))
+            return print_
         if name == "repr" or name == "str":
             if name == "str":
                 return BT("str", (str,), lambda v="": I.to_str(v))
@@ -1412,7 +1730,7 @@ class Interp:
         ts = t if isinstance(t, tuple) else (t,)
         for x in ts:
             if isinstance(x, ClassInfo):
-                if isinstance(v, Obj) and x in self.p.mro(v.cls):
+                if isinstance(v, (Obj, NTuple)) and x in self.p.mro(v.cls):
                     return True
             elif x is ITERABLE:
                 if isinstance(v, (list, tuple, dict, str, set, AArr)) or (isinstance(v, Obj) and self.p.find_attr(v.cls, "__iter__")):
@@ -1533,6 +1851,8 @@ class Interp:
         if isinstance(a, Obj) and isinstance(b, Obj):
             if a is b:
                 return True
+            if a.cls is b.cls and self.record_kind(a.cls) == "dataclass" and a.cls.dataclass_options().get("eq", True):
+                return all(self.py_eq(a.f[k], b.f[k]) for k, *_ in self.record_fields(a.cls))
             if a.cls is not b.cls or not a.cls.is_pydantic:
                 return False
             ka = {k: v for k, v in a.f.items() if not k.startswith("_")}
@@ -1576,6 +1896,18 @@ class Interp:
             self.set_item(o, k, val, tgt)
         elif isinstance(tgt, (ast.Tuple, ast.List)):
             vals = self.iterate(val)
+            stars = [i for i, t in enumerate(tgt.elts) if isinstance(t, ast.Starred)]
+            if stars:
+                k = stars[0]
+                after = len(tgt.elts) - k - 1
+                if len(stars) > 1 or len(vals) < k + after:
+                    raise PyRaise("ValueError", tgt, "unpacking: not enough values")
+                for t, v in zip(tgt.elts[:k], vals[:k]):
+                    self.assign(t, v, fr)
+                self.assign(tgt.elts[k].value, list(vals[k:len(vals) - after]), fr)
+                for t, v in zip(tgt.elts[k + 1:], vals[len(vals) - after:] if after else []):
+                    self.assign(t, v, fr)
+                return
             if len(vals) != len(tgt.elts):
                 raise PyRaise("ValueError", tgt, "unpacking: wrong number of values")
             for t, v in zip(tgt.elts, vals):
@@ -1587,7 +1919,11 @@ class Interp:
         if isinstance(o, PyModel):
             setattr(o, name, val)
             return
+        if isinstance(o, NTuple):
+            raise PyRaise("AttributeError", node, "can't set attribute")
         if isinstance(o, Obj):
+            if not o.cls.is_pydantic and self.record_kind(o.cls) == "dataclass" and o.cls.dataclass_options().get("frozen"):
+                raise PyRaise("FrozenInstanceError", node, f"cannot assign to field '{name}'")
             o.f[name] = val
             if not name.startswith("_"):
                 o.fields_set.add(name)
@@ -1680,21 +2016,17 @@ class Interp:
         elif isinstance(s, ast.Try):
             self.do_try(s, fr)
         elif isinstance(s, ast.With):
-            entered = []
-            for item in s.items:
-                cm = self.eval(item.context_expr, fr)
-                val = cm
-                if isinstance(cm, Obj) and self.p.find_attr(cm.cls, "__enter__"):
-                    val = self.call_method(cm, "__enter__")
-                    entered.append(cm)
-                if item.optional_vars is not None:
-                    self.assign(item.optional_vars, val, fr)
-            try:
-                self.block(s.body, fr)
-            finally:
-                for cm in reversed(entered):
-                    if self.p.find_attr(cm.cls, "__exit__"):
-                        self.call_method(cm, "__exit__", None, None, None)
+            self.with_items(s, 0, fr)
+        elif isinstance(s, ast.Match):
+            subject = self.eval(s.subject, fr)
+            for case in s.cases:
+                binds = {}
+                if self.match_pattern(case.pattern, subject, binds, fr):
+                    saved = {k: fr.env[k] for k in binds if k in fr.env}
+                    fr.env.update(binds)        # captures are bound before the guard runs (and stay bound, as in Python)
+                    if case.guard is None or self.truth(self.eval(case.guard, fr)):
+                        self.block(case.body, fr)
+                        break
         elif isinstance(s, ast.Pass):
             pass
         elif isinstance(s, ast.Break):
@@ -1705,6 +2037,8 @@ class Interp:
             if not self.truth(self.eval(s.test, fr)):
                 raise PyRaise("AssertionError", s, "assertion failed", where=self.stack[-1] if self.stack else "")
         elif isinstance(s, ast.FunctionDef):
+            if s.decorator_list:
+                raise AnalysisAbort(f"decorator on the nested function {s.name} (line {s.lineno}) is not modelled")
             fr.env[s.name] = Closure(s, fr.env, fr.module, fr.owner, self)
         elif isinstance(s, ast.Delete):
             for t in s.targets:
@@ -1751,6 +2085,169 @@ class Interp:
         else:
             raise AnalysisAbort(f"unsupported statement {type(s).__name__} (line {s.lineno})")
 
+    # ---- with: plain context-manager objects and @contextmanager generator functions
+    def with_items(self, s, i, fr):
+        if i == len(s.items):
+            self.block(s.body, fr)
+            return
+        item = s.items[i]
+        cm = self.eval(item.context_expr, fr)
+        if isinstance(cm, CtxMgr):
+            def body(value):
+                if item.optional_vars is not None:
+                    self.assign(item.optional_vars, value, fr)
+                self.with_items(s, i + 1, fr)
+            self.run_contextmanager(cm, body)
+            return
+        val = cm
+        entered = False
+        if isinstance(cm, Obj) and self.p.find_attr(cm.cls, "__enter__"):
+            val = self.call_method(cm, "__enter__")
+            entered = True
+        elif isinstance(cm, Obj):
+            raise PyRaise("TypeError", s, f"'{cm.cls.name}' object does not support the context manager protocol")
+        elif isinstance(cm, PyModel) and hasattr(cm, "__enter__"):
+            val = cm.__enter__()
+        if item.optional_vars is not None:
+            self.assign(item.optional_vars, val, fr)
+        try:
+            self.with_items(s, i + 1, fr)
+        except PyRaise as e:
+            if entered and self.p.find_attr(cm.cls, "__exit__"):
+                if self.truth(self.call_method(cm, "__exit__", ExcClass(e.exc_name), e, None)):
+                    return          # __exit__ returned a true value: the exception is suppressed
+            raise
+        else:
+            if entered and self.p.find_attr(cm.cls, "__exit__"):
+                self.call_method(cm, "__exit__", None, None, None)
+            elif isinstance(cm, PyModel) and hasattr(cm, "__exit__"):
+                cm.__exit__(None, None, None)
+
+    def run_contextmanager(self, cm: "CtxMgr", body):
+        """contextlib.contextmanager: the generator function runs up to its yield, the with-body runs AT the yield (an exception of the
+        body surfaces there, inside the generator's own try/except/finally), then the rest of the function runs"""
+        fn = cm.fn
+        state = {"yielded": 0}
+
+        def at_yield(value):
+            state["yielded"] += 1
+            if state["yielded"] > 1:
+                raise PyRaise("RuntimeError", None, "generator didn't stop")
+            body(value)
+        self.depth += 1
+        self.stack.append(fn.qual)
+        try:
+            env = dict(cm.closure_env) if cm.closure_env else {}
+            self.bind_args(fn.node, cm.args, dict(cm.kwargs), env, fn)
+            env["__cm_body__"] = at_yield
+            fr = Frame(env, self.p.modules[fn.module], fn.cls, fn, cm.args[0] if cm.args and fn.cls is not None else None)
+            try:
+                self.block(fn.node.body, fr)
+            except _Return:
+                pass
+            if not state["yielded"]:
+                raise PyRaise("RuntimeError", None, "generator didn't yield")
+        finally:
+            self.stack.pop()
+            self.depth -= 1
+
+    # ---- match statement
+    def match_pattern(self, p, subject, binds, fr):
+        if isinstance(p, ast.MatchValue):
+            return self.py_eq(subject, self.eval(p.value, fr))
+        if isinstance(p, ast.MatchSingleton):
+            return subject is p.value
+        if isinstance(p, ast.MatchAs):
+            if p.pattern is not None and not self.match_pattern(p.pattern, subject, binds, fr):
+                return False
+            if p.name is not None:
+                binds[p.name] = subject
+            return True
+        if isinstance(p, ast.MatchOr):
+            for alt in p.patterns:
+                b2 = {}
+                if self.match_pattern(alt, subject, b2, fr):
+                    binds.update(b2)
+                    return True
+            return False
+        if isinstance(p, ast.MatchSequence):
+            if isinstance(subject, (str, bytes, dict, set, KeyList)) or not isinstance(subject, (list, tuple)):
+                if isinstance(subject, (Obj, AArr, PyModel)) and not isinstance(subject, NTuple):
+                    if isinstance(subject, Obj):
+                        return False
+                    raise AnalysisAbort(f"sequence pattern against {self.tname(subject)}")
+                if not isinstance(subject, (list, tuple)):
+                    return False
+            items = list(subject)
+            stars = [i for i, q in enumerate(p.patterns) if isinstance(q, ast.MatchStar)]
+            if not stars:
+                if len(items) != len(p.patterns):
+                    return False
+                return all(self.match_pattern(q, x, binds, fr) for q, x in zip(p.patterns, items))
+            k = stars[0]
+            after = len(p.patterns) - k - 1
+            if len(items) < k + after:
+                return False
+            for q, x in zip(p.patterns[:k], items[:k]):
+                if not self.match_pattern(q, x, binds, fr):
+                    return False
+            for q, x in zip(p.patterns[k + 1:], items[len(items) - after:] if after else []):
+                if not self.match_pattern(q, x, binds, fr):
+                    return False
+            if p.patterns[k].name is not None:
+                binds[p.patterns[k].name] = items[k:len(items) - after]
+            return True
+        if isinstance(p, ast.MatchMapping):
+            if not isinstance(subject, dict):
+                if isinstance(subject, (Obj, list, tuple, str, int, float, NTuple)) or subject is None:
+                    return False
+                raise AnalysisAbort(f"mapping pattern against {self.tname(subject)}")
+            used = []
+            for kexpr, q in zip(p.keys, p.patterns):
+                k = self.eval(kexpr, fr)
+                if k not in subject or not self.match_pattern(q, subject[k], binds, fr):
+                    return False
+                used.append(k)
+            if p.rest is not None:
+                binds[p.rest] = {k: v for k, v in subject.items() if k not in used}
+            return True
+        if isinstance(p, ast.MatchClass):
+            cls = self.eval(p.cls, fr)
+            if not self.isinstance_(subject, cls):
+                return False
+            if p.patterns:
+                if isinstance(cls, BT) and cls.name in ("str", "int", "float", "bool", "list", "tuple", "dict", "set", "frozenset", "bytes"):
+                    if len(p.patterns) != 1:
+                        raise PyRaise("TypeError", p, f"{cls.name}() accepts 1 positional sub-pattern")
+                    if not self.match_pattern(p.patterns[0], subject, binds, fr):
+                        return False
+                elif isinstance(cls, ClassInfo) and not cls.is_pydantic and self.record_kind(cls):
+                    names = [f[0] for f in self.record_fields(cls)]
+                    if len(p.patterns) > len(names):
+                        raise PyRaise("TypeError", p, f"{cls.name}() accepts {len(names)} positional sub-patterns")
+                    for n_, q in zip(names, p.patterns):
+                        if not self.match_pattern(q, self.get_attr(subject, n_), binds, fr):
+                            return False
+                elif isinstance(cls, ClassInfo) and self.p.find_attr(cls, "__match_args__"):
+                    r = self.p.find_attr(cls, "__match_args__")
+                    names = list(self.const_value(r[1], Frame({}, self.p.modules[r[2].module], r[2], None)))
+                    for n_, q in zip(names, p.patterns):
+                        if not self.match_pattern(q, self.get_attr(subject, n_), binds, fr):
+                            return False
+                else:
+                    raise PyRaise("TypeError", p, f"{getattr(cls, 'name', cls)}() accepts 0 positional sub-patterns ({len(p.patterns)} given)")
+            for attr, q in zip(p.kwd_attrs, p.kwd_patterns):
+                try:
+                    val = self.get_attr(subject, attr)
+                except PyRaise as e:
+                    if e.isa("AttributeError"):
+                        return False
+                    raise
+                if not self.match_pattern(q, val, binds, fr):
+                    return False
+            return True
+        raise AnalysisAbort(f"pattern {type(p).__name__} is not modelled")
+
     def aug(self, op, cur, val, node):
         if isinstance(cur, list) and isinstance(op, ast.Add):
             cur.extend(self.iterate(val))
@@ -1776,31 +2273,35 @@ class Interp:
         raise AnalysisAbort(f"raise of {v!r}")
 
     def do_try(self, s, fr):
+        pending = None
         try:
             try:
-                self.block(s.body, fr)
-            except (NumpyRaise,) as e:
-                raise PyRaise(e.exc_name, self.current_node, e.msg, where=self.stack[-1] if self.stack else "")
-        except PyRaise as e:
-            for h in s.handlers:
-                if h.type is None or self.exc_matches(e, self.eval(h.type, fr)):
-                    if h.name:
-                        fr.env[h.name] = e
-                    self.handling.append(e)
-                    try:
-                        self.block(h.body, fr)
-                    finally:
-                        self.handling.pop()
-                    break
+                try:
+                    self.block(s.body, fr)
+                except (NumpyRaise,) as e:
+                    raise PyRaise(e.exc_name, self.current_node, e.msg, where=self.stack[-1] if self.stack else "")
+            except PyRaise as e:
+                for h in s.handlers:
+                    if h.type is None or self.exc_matches(e, self.eval(h.type, fr)):
+                        if h.name:
+                            fr.env[h.name] = e
+                        self.handling.append(e)
+                        try:
+                            self.block(h.body, fr)
+                        finally:
+                            self.handling.pop()
+                        break
+                else:
+                    raise
             else:
-                if s.finalbody:
-                    self.block(s.finalbody, fr)
-                raise
-        else:
-            if s.orelse:
-                self.block(s.orelse, fr)
+                if s.orelse:
+                    self.block(s.orelse, fr)
+        except (PyRaise, NumpyRaise, _Return, _Break, _Continue) as ex:
+            pending = ex            # the finally clause runs also when the body / a handler raises, returns, breaks or continues
         if s.finalbody:
             self.block(s.finalbody, fr)
+        if pending is not None:
+            raise pending
 
     def exc_matches(self, e: PyRaise, t):
         ts = t if isinstance(t, tuple) else (t,)
@@ -1869,9 +2370,13 @@ class Interp:
             "typing.TYPE_CHECKING": False,
             "types.MappingProxyType": lambda d: ROMap(d),
             "collections.Counter": lambda it=(): collections.Counter(self.iterate(it) if not isinstance(it, dict) else it),
+            "io.StringIO": lambda initial="": StringBuf(initial),
+            "collections.deque": lambda it=(), maxlen=None: collections.deque(self.iterate(it), maxlen),
             "collections.OrderedDict": lambda *a, **k: dict(*[self.iterate(x) if not isinstance(x, dict) else x for x in a], **k),
             "functools.partial": lambda f, *a, **k: (lambda *a2, **k2: self.call(f, list(a) + list(a2), {**k, **k2})),
             "abc.abstractmethod": lambda f: f,
+            "types.EllipsisType": BT("ellipsis", (type(Ellipsis),), lambda: Ellipsis), "types.NoneType": BT("NoneType", (type(None),), lambda: None),
+            "functools.cache": self.memoised, "functools.lru_cache": lambda *a, **k: (self.memoised(a[0]) if a and not k and not isinstance(a[0], (int, type(None))) else self.memoised),
         }
         if dotted in known:
             return known[dotted]
@@ -2036,6 +2541,10 @@ class Interp:
                 if isinstance(e, TypeError):
                     raise AnalysisAbort(f"modelled library function called with unmodelled arguments: {e}")
                 raise
+        if isinstance(f, (Obj, NTuple)):
+            r = self.p.find_attr(f.cls, "__call__")
+            if r and r[0] == "method":
+                return self.call_fn(r[1], [f] + list(args), kwargs)
         raise PyRaise("TypeError", node, f"'{self.tname(f)}' object is not callable")
 
     def call_closure(self, c: Closure, args, kwargs):
@@ -2059,6 +2568,9 @@ class Interp:
     def call_ext(self, f: ExtModule, args, kwargs, node):
         if f.name in self.hooks:
             return self.hooks[f.name](*args, **kwargs)
+        alt = self.resolved(("ext", f.name), f.name.split(".")[-1])      # e.g. `import io; io.StringIO()` = `from io import StringIO`
+        if not isinstance(alt, (ExtModule, Marker)):
+            return self.call(alt, list(args), dict(kwargs), node)
         if f.name == "pandas.Index" and args and isinstance(args[0], (list, tuple)):
             return LabelIndex(args[0], self)
         raise AnalysisAbort(f"call of external {f.name} is not modelled (line {getattr(node, 'lineno', '?')})")
